@@ -46,6 +46,10 @@ func TestWorker(t *testing.T) {
 		b, _ := json.Marshal(v)
 		out.Write(append(b, '\n'))
 	}
+	if prop == "C18BOOT" {
+		c18Boot(t, emit)
+		return
+	}
 	eng, ok := engines[prop]
 	if !ok {
 		emit(map[string]interface{}{"t": "infra", "msg": "unknown property " + prop})
